@@ -68,6 +68,8 @@ func Decode(d *Dump) *Snap {
 	for _, kv := range d.KVs {
 		s.Raw[rawKey(kv.Store, kv.Key)] = kv.Val
 		switch kv.Store {
+		case "params":
+			// part of the state identity in parameter-changing scenarios; not decoded
 		case "deployment":
 			s.decDeployment(kv)
 		case "market":
